@@ -378,6 +378,9 @@ func ExecConformance(c *Check, prop string, bins map[string]string, vs []Variant
 				continue
 			}
 			if s.Result.Hung {
+				if s2 := Confirm(bins[v.ID()], s, m.Env); s2.Result != nil && !s2.Result.Hung {
+					continue // slow, not stuck
+				}
 				c.Violate("hang", fmt.Sprintf("operation did not return on %s: %s\n%s", v.ID(), s.Query, trunc(s.Result.LeakStack, 1500)), s)
 				continue
 			}
